@@ -205,6 +205,15 @@ def use(lemma_fn, *args):
     return True
 
 
+def parses_as_int(s):
+    """int(s) does not raise ValueError (symbolically: exactly the non-raising condition of the engine's int(str))."""
+    try:
+        int(s)
+        return True
+    except ValueError:
+        return False
+
+
 def is_sorted(xs, key=None):
     """xs is ordered (non-decreasing) by the integer key -- the predicate the trusted contract of the builtin
     sorted(xs, key=...) promises for its result (same lambda text => same predicate)."""
